@@ -721,7 +721,7 @@ class Type:
         base_type = data["base_type"].upper()
         if base_type == "ENUM":
             data["properties"]["values"] = p_list[3]
-        elif data["base_type"] == "OBJECT":
+        elif base_type == "OBJECT":
             if "type" in p_list[3][0]:
                 data["properties"]["attributes"] = p_list[3]
         return data
